@@ -80,7 +80,7 @@ func run(id, tier, only string) (code int) {
 		return 2
 	}
 	rep := report.New(id, tier)
-	rep.Explanation = chk.Expl
+	rep.Explanation = chk.Expl + props.RatchetExpl
 	rep.NotDecided = chk.Not
 	ctxs := []ir.BuildCtx{{}}
 	if tier == "thorough" {
